@@ -147,6 +147,19 @@ def compile_props(pid):
     return len(names_all), discharged, sorted(axioms_all), log_all, broken, names_all
 
 
+def coqchk(pid):
+    """Thorough tier: re-check the property's compiled theorem files and everything they depend on with
+    Coq's independent checker; returns (ok, summary)."""
+    mods = ["Mux.Props." + fn for fn in P.PROPS[pid].get("props", [pid])]
+    try:
+        rc, out = sh(["coqchk", "-silent", "-o", "-Q", COQ, "Mux"] + mods, cwd=COQ, timeout=3000)
+    except subprocess.TimeoutExpired:
+        return False, "coqchk timed out"
+    m = re.search(r"\* Axioms:(.*?)\n\s*\n", out, re.S)
+    ax = re.sub(r"\s+", " ", m.group(1)).strip() if m else "?"
+    return rc == 0 and ax == "<none>", "coqchk -o on %s: exit %d, axioms: %s" % (" ".join(mods), rc, ax)
+
+
 def lint():
     """No declared axioms, no admitted proofs, no disabled kernel checks anywhere in the development
     (comments are ignored: the words may be used in prose)."""
@@ -299,6 +312,13 @@ def main():
     lint_out = lint()
     if lint_out:
         broken = (broken + "; " if broken else "") + "forbidden keyword in development: " + lint_out.splitlines()[0]
+    chk_note = None
+    if tier == "thorough" and not replay and not broken:
+        with Lock():
+            ok_chk, chk_note = coqchk(pid)
+        if not ok_chk:
+            broken = "independent checker: " + chk_note
+        notes.append(chk_note)
 
     # ---- cases
     suite = cfg.get("suite", pid)
@@ -501,6 +521,12 @@ def main_conc(pid, tier, replay, seed):
     lint_out = lint()
     if lint_out:
         broken = (broken + "; " if broken else "") + "forbidden keyword in development: " + lint_out.splitlines()[0]
+    if tier == "thorough" and not replay and not broken:
+        with Lock():
+            ok_chk, chk_note = coqchk(pid)
+        if not ok_chk:
+            broken = "independent checker: " + chk_note
+        notes.append(chk_note)
     diag = re.findall(r"= (\[\(.*?\)\])\s*:\s*list \(string \* option sev\)", plog, re.S) + \
         re.findall(r"= (\[\{\|.*?\|\}\])\s*:\s*list gfact", plog, re.S)
     diag = [re.sub(r"\s+", " ", d) for d in diag if d.strip() != "[]"]
